@@ -42,6 +42,20 @@ MODES = ["default", "uip", "nouip"]
 THREADS = [1, 2, 4, 0]  # 0 = wild's default (all cores)
 
 SIG_LATE = "late-failure-leaves-output"
+# Failures injected after the output has been written completely (input verification, reporting to the
+# parent): the file at the output path is a complete output, but the link still exits non-zero.
+POST_POINTS = ["before-verify-inputs", "after-verify-inputs", "before-inform-parent", "link-returned"]
+SIG_POST = "post-link-failure-leaves-output"
+
+
+def late_sig(c):
+    if c["cause"] == "inject" and c["point"] in POST_POINTS:
+        return f"{SIG_POST}:{c['kind']}"
+    if c["prior"] == "symlink" and c["kind"] == "error":
+        # The output path is a symlink: the link wrote through it into the target, and removing the
+        # output on failure (which only removes regular files, like GNU ld) cannot undo that.
+        return f"{SIG_LATE}-through-symlink:{c['kind']}"
+    return f"{SIG_LATE}:{c['kind']}"
 OLD_BYTES = b"PREVIOUS-OUTPUT-" * 64 + b"\n"
 OLD_MTIME = 1_500_000_000
 
@@ -192,7 +206,7 @@ class C18(Check):
     def excluded_by_construction(self, case):
         c = normalise(case)
         if predicted_late(c):
-            sig = f"{SIG_LATE}:{c['kind']}"
+            sig = late_sig(c)
             if sig in self._known_listed():
                 return sig
         return None
@@ -293,7 +307,7 @@ class C18(Check):
             if after_target is not None and not hist.same_entry(before_target, after_target):
                 effect = "symlink-target-modified"
         if effect:
-            sig = f"{SIG_LATE}:{c['kind']}" if late else f"early-failure-touches-output:{effect}"
+            sig = late_sig(c) if late else f"early-failure-touches-output:{effect}"
             raise Violation(sig,
                             f"wild exited {res.rc} ({what}) but the output path `{out_rel}` is neither absent nor "
                             f"untouched: {effect} [{hist.describe_change(before, after)}]; prior={c['prior']} "
